@@ -95,6 +95,10 @@ def build(case):
     else:
         copts['weight_constant_axis'] = (-1,)
     sal = o.get('saliency', 'none')
+    if sal == 'zeros' and -1 not in copts['weight_constant_axis']:
+        # frame-dependent weights: a frame with zero saliency has zero prior mass for every class, which is outside "every class
+        # has non-zero mass" (also enforced by sample_opts; repeated here because lanes override the tying after sampling)
+        sal = 'pos'
     sal_shape = (*lead, N)
     if sal == 'none':
         s.saliency = None
